@@ -1,0 +1,71 @@
+//! Linearization-event recorder for model-based verification.
+//!
+//! Compiled only with `--cfg domain_verif`.  The library emits one event at
+//! each point where shared zone state changes hands, *while the protecting
+//! lock is held*, so that events of concurrently running threads can be
+//! ordered by their sequence numbers without a clock.
+
+use std::cell::Cell;
+use std::sync::atomic::{AtomicBool, AtomicU64, Ordering};
+use std::sync::Mutex;
+use std::vec::Vec;
+
+/// One recorded event.
+#[derive(Clone, Debug)]
+pub struct Event {
+    /// Position in the global order.
+    pub seq: u64,
+    /// What happened.
+    pub kind: &'static str,
+    /// Tag of the thread the event happened on (see [`set_tag`]).
+    pub tag: u64,
+    /// Event specific values.
+    pub a: u64,
+    /// Event specific values.
+    pub b: u64,
+}
+
+static ENABLED: AtomicBool = AtomicBool::new(false);
+static SEQ: AtomicU64 = AtomicU64::new(0);
+static LOG: Mutex<Vec<Event>> = Mutex::new(Vec::new());
+
+std::thread_local! {
+    static TAG: Cell<u64> = const { Cell::new(0) };
+}
+
+/// Switches recording on or off.
+pub fn enable(on: bool) {
+    ENABLED.store(on, Ordering::SeqCst);
+}
+
+/// Tags all events emitted by the calling thread.
+pub fn set_tag(tag: u64) {
+    TAG.with(|t| t.set(tag));
+}
+
+/// Draws the next sequence number.
+pub fn next_seq() -> u64 {
+    SEQ.fetch_add(1, Ordering::SeqCst)
+}
+
+/// Records an event and returns its sequence number.
+pub fn emit(kind: &'static str, a: u64, b: u64) -> u64 {
+    if !ENABLED.load(Ordering::SeqCst) {
+        return 0;
+    }
+    let mut log = LOG.lock().unwrap();
+    let seq = next_seq();
+    log.push(Event {
+        seq,
+        kind,
+        tag: TAG.with(|t| t.get()),
+        a,
+        b,
+    });
+    seq
+}
+
+/// Removes and returns everything recorded so far.
+pub fn take() -> Vec<Event> {
+    core::mem::take(&mut *LOG.lock().unwrap())
+}
